@@ -553,11 +553,14 @@ def run(prog: Program, chk: Check):
     pops = [n for n in rg.nodes if any(is_method_call(c, "pop") and path_of(recv_of(c)) == "self.modules" and len(c.args) == 2 for c in node_calls(n))]
     live_goal = [guards.parse(f"{rp}.conn in self.modules"), guards.parse(f"{rp}.connected"), guards.parse(f"self.modules.get({rp}.conn) is {rp}")]
     idem = bool(pops) and not dels
+    from .mgr import lookup_aliases
+    la = lookup_aliases(rm.node, rp)  # `registered = self.modules.get(module.conn)` names the lookup
+    rgs_at = lambda n: [[(guards.subst(e_, la), pol_) for e_, pol_ in p_] for p_ in rgs.at(n)] if la else rgs.at(n)
     if dels:
-        idem = all(any(not guards.any_path_implies(rgs.at(n), gl) for gl in live_goal) for n in dels)
+        idem = all(any(not guards.any_path_implies(rgs_at(n), gl) for gl in live_goal) for n in dels)
     # the CLIENT_CLOSED notice must not be repeated for a removed module either
     scc = [n for n in rg.nodes if any(self_call("send_client_close")(c) for c in node_calls(n))]
-    idem_notice = all(any(not guards.any_path_implies(rgs.at(n), gl) for gl in live_goal) for n in scc) if scc else False
+    idem_notice = all(any(not guards.any_path_implies(rgs_at(n), gl) for gl in live_goal) for n in scc) if scc else False
     U.decide(idem and idem_notice, fkey(rm, "idempotent"), where(rm), "remove_module does nothing for a module that is no longer in the table",
              "remove_module(module) on an already removed module raises KeyError at `del self.modules[module.conn]` / republishes CLIENT_CLOSED (it is reachable twice for one module: nested removal during forward_message)")
     for f, lp, c, verdict in snapshot_loop_sends(prog, ty, cg, mm, rm):
